@@ -75,6 +75,9 @@ func histLabels(raw json.RawMessage, impl any) []string {
 	}
 	if in.MarkStage != "" {
 		l = append(l, "marked-for-deletion@"+in.MarkStage)
+		if in.MarkStale {
+			l = append(l, "marked-in-one-call-after-stale-ids")
+		}
 	}
 	if in.Kubelet.NoStatus {
 		l = append(l, "kubelet:no-status")
@@ -100,6 +103,27 @@ func histLabels(raw json.RawMessage, impl any) []string {
 	if len(in.Scn.DaemonSets) > 0 {
 		l = append(l, "daemonsets")
 	}
+	open := false
+	for _, p := range in.Scn.Pools {
+		for _, e := range p.Reqs {
+			if e.Key == "tier" && !(e.Op == "In" && len(e.Values) == 1) {
+				open = true
+			}
+		}
+	}
+	if open {
+		l = append(l, "pool-leaves-custom-key-open")
+		for _, p := range in.Scn.Pods {
+			for _, t := range p.Required {
+				for _, e := range t {
+					if e.Key == "tier" && (e.Op == "Exists" || (e.Op == "In" && len(e.Values) > 1)) {
+						l = append(l, "pod-constrains-open-custom-key-without-pinning")
+					}
+				}
+			}
+		}
+		l = dedupS(l)
+	}
 	if s, _ := m["launchErr"].(string); s != "" {
 		l = append(l, "launch-error")
 	}
@@ -110,6 +134,7 @@ func Ops() []*core.Op {
 	return []*core.Op{
 		viewOp(),
 		syncedOp(),
+		markOp(),
 		accountOp(),
 		churnOp(),
 		roomOp(),
